@@ -17,7 +17,7 @@ from .. import common, rt, corpus, gen_wide, tel, harvest
 
 PROP = 'C06'
 MODULES = ['Cnl2aspModel.Props.C06']
-THEOREMS = ['C06_value', 'C06_bounds', 'C06_core_safe', 'C06_rule_syntax', 'C06_program_syntax', 'C06_symbols_in_grammar']
+THEOREMS = ['C06_value', 'C06_bounds', 'C06_core_safe', 'C06_rule_syntax', 'C06_program_syntax', 'C06_symbols_in_grammar', 'C06_atoms_are_C14_atoms']
 
 VAR_RE = re.compile(r'(?<![A-Za-z0-9_"])[A-Z][A-Z0-9_]*(?![A-Za-z0-9_"(])')
 
